@@ -7,6 +7,7 @@ import Req.Lemmas.C09PoolExcl
 import Req.Lemmas.C09PoolLru
 import Req.Lemmas.C09PoolCount
 import Req.Lemmas.C09PoolOnce
+import Req.Lemmas.C09PoolLeak
 import Req.Lemmas.C09Pairing
 import Req.Lemmas.C09Monitor
 /-!
@@ -21,6 +22,9 @@ Lock-set part
                        and the trace conforms to the sites, there is no race on `x`.
 * `guarded_gives_common` : the executable table check `guarded` really yields a lock that is
                        in every (non-setup) site's lock set.
+* `lockset_sound_pairwise`, `pairGuarded_gives_shared` : the same for state guarded by TWO
+                       mutexes (written under both, read under either): every two sites of which
+                       one can write share a lock ⇒ no race.
 The regenerated table itself is discharged in `lean/Bridge/C09.lean` (`anchored_fields_guarded`).
 
 Pool part (model `Req/Pool/H1Pool.lean`; an op list is one interleaving at lock granularity)
@@ -40,6 +44,11 @@ Pairing part (model `Req/Pool/Pairing.lean`)
                           every request written on it has had its response fully consumed, none is
                           expected, and the read loop is back at its top.
 * `one_request_at_a_time` : `numExpectedResponses ≤ 1`.
+* `own_response_h1`     : with the peer's byte stream as a labelled queue: every response head
+                          delivered to request `r` is the peer's answer to `r` (unless unsolicited
+                          bytes got in front of an awaited head — `tainted`).
+* `unsolicited_never_delivered` : bytes nobody asked for, found by the read loop on an idle
+                          connection, close it; they reach no caller.
 
 Monitor part (`Req/Pool/Monitor.lean`, the judge of the concurrent lanes)
 * `monitor_accepts_only_own_responses` : in a history the monitor accepts, every caller that
@@ -47,8 +56,11 @@ Monitor part (`Req/Pool/Monitor.lean`, the judge of the concurrent lanes)
 * `monitor_accepts_no_overlap` : every HTTP/1.1 request event it lets pass found no other
                           request outstanding on that connection.
 
-NOT proved (see notes/C09.md): liveness (every live connection is in at least one place / no
-leak), HTTP/2 (`pconn.alt`) entries of the idle list, `IdleConnTimeout` staleness (`tooOld`) —
+* `pool_no_leak`, `pool_exact` : every connection ever dialled is in EXACTLY one place — idle list
+                          of its key (once) / owned by exactly one request / in transit / nowhere and
+                          then closed; a live connection is never nowhere.
+NOT proved (see notes/C09.md): liveness in the temporal sense (a pool routine that holds a
+connection in transit does finish), HTTP/2 (`pconn.alt`) entries of the idle list, `IdleConnTimeout` staleness (`tooOld`) —
 the latter two are outside the model; the Go memory model below lock granularity.
 -/
 namespace Req.Props.C09
@@ -84,6 +96,38 @@ theorem static_lockset_sound (facts : StaticFacts) (tr : List Ev) (hwf : WF tr)
   intro i t w hi
   obtain ⟨s, hs, hh⟩ := hc i t x w hi
   exact hh l (hall s hs)
+
+/-- **lockset_sound_pairwise** — the two-mutex discipline ("written under `mu` AND `wmu`, read under
+either"): if every two access sites of `x` of which at least one can write have a lock in common
+(not necessarily the same lock for every pair), no execution that conforms to the sites contains
+a race on `x`. The classical theorem is the special case of one lock common to all sites. -/
+theorem lockset_sound_pairwise (facts : StaticFactsW) (tr : List Ev) (hwf : WF tr)
+    (hc : ConformsW facts tr) (x : Loc)
+    (hall : ∀ a ∈ facts x, ∀ b ∈ facts x, (a.1 = true ∨ b.1 = true) → ∃ l, l ∈ a.2 ∧ l ∈ b.2) :
+    ¬ Race tr x := by
+  rintro ⟨i, j, t₁, t₂, w₁, w₂, hij, hi, hj, hne, hw, hnhb⟩
+  obtain ⟨a, ha, haw, hah⟩ := hc i t₁ x w₁ hi
+  obtain ⟨b, hb, hbw, hbh⟩ := hc j t₂ x w₂ hj
+  obtain ⟨l, hla, hlb⟩ := hall a ha b hb (by
+    rcases hw with h | h
+    · exact Or.inl (haw h)
+    · exact Or.inr (hbw h))
+  exact hnhb (lockset_ordered tr hwf l i j t₁ t₂ x x w₁ w₂ hij hne hi hj (hah l hla) (hbh l hlb))
+
+/-- **pairGuarded_gives_shared** — the executable pairwise check is sound. -/
+theorem pairGuarded_gives_shared (as : List Access) (hg : pairGuarded as = true)
+    (a b : Access) (ha : a ∈ live as) (hb : b ∈ live as) (hw : a.write = true ∨ b.write = true) :
+    ∃ l, l ∈ a.held ∧ l ∈ b.held := by
+  unfold pairGuarded at hg
+  have h1 := List.all_eq_true.mp (List.all_eq_true.mp hg a ha) b hb
+  unfold pairOK at h1
+  simp only [Bool.or_eq_true, Bool.and_eq_true, Bool.not_eq_true', List.any_eq_true,
+    List.contains_iff_mem] at h1
+  rcases h1 with ⟨h2, h3⟩ | ⟨l, hl, hl'⟩
+  · rcases hw with h | h
+    · rw [h] at h2; cases h2
+    · rw [h] at h3; cases h3
+  · exact ⟨l, hl, by simpa using hl'⟩
 
 /-- **guarded_gives_common** — the executable check is sound: when `guarded as` holds and some
 non-setup site exists, there is a lock contained in the lock set of every non-setup site. -/
@@ -130,12 +174,18 @@ example : guarded [⟨[1], true, false, [5]⟩, ⟨[2], false, false, [4, 5]⟩]
 example : guarded [⟨[1], true, false, [5]⟩, ⟨[2], false, false, []⟩] = false := by decide
 example : verdict [⟨[1], true, false, [5]⟩, ⟨[1], true, false, [5]⟩, ⟨[2], false, false, []⟩]
     = .unguarded 5 [[2]] := by decide
+/-- written under locks 4 and 5, read under 4 by one reader and under 5 by another: no common
+lock, pairwise guarded; a reader that holds neither breaks it. -/
+example : verdict [⟨[1], true, false, [4, 5]⟩, ⟨[2], false, false, [4]⟩, ⟨[3], false, false, [5]⟩]
+    = .pairwise := by decide
+example : pairGuarded [⟨[1], true, false, [4, 5]⟩, ⟨[2], false, false, [4]⟩, ⟨[3], false, false, []⟩]
+    = false := by decide
 
 
 /-! ## Pool -/
 section Pool
 open Req.Pool.H1Pool Req.Lemmas.C09Pool Req.Lemmas.C09PoolExcl Req.Lemmas.C09PoolLru
-open Req.Lemmas.C09PoolCount Req.Lemmas.C09PoolOnce
+open Req.Lemmas.C09PoolCount Req.Lemmas.C09PoolOnce Req.Lemmas.C09PoolLeak
 
 /-- The pool invariant, spelled out. `(s.wst w).holds c` = request `w` owns connection `c`
 (delivered to its `wantConn` or already received by `getConn`). -/
@@ -189,6 +239,47 @@ theorem pool_inv (cfg : Cfg) (ops : List Op) : Inv cfg (run cfg {} ops) := by
     no_underflow := fun hpos => (Excl_Acct_run cfg hpos {} ops Excl_init Acct_init).noUnderflow
   }
 
+/-- **pool_no_leak** — no connection is lost track of: in every reachable state every connection
+that was dialled and is not closed is listed idle, owned by a request (delivered to its `wantConn`
+or in use), or in the hands of a pool routine between two critical sections (`transit`: the
+routine then pools it, hands it to a waiter, or closes it). -/
+theorem pool_no_leak (cfg : Cfg) (ops : List Op) (c : Conn)
+    (hcreated : (run cfg {} ops).ckey c ≠ none) (hopen : (run cfg {} ops).closed c = false) :
+    (∃ k, c ∈ (run cfg {} ops).idle k) ∨ c ∈ (run cfg {} ops).transit ∨
+      ∃ w, ((run cfg {} ops).wst w).holds c = true :=
+  NoLeak_run cfg {} ops Excl_init (LruAll_init cfg) NoLeak_init c ⟨hcreated, hopen⟩
+
+/-- **pool_exact** — "in exactly one place": every connection ever dialled is, in every reachable
+state, in EXACTLY one of {the idle list of its own key (once), owned by exactly one request, in
+transit, nowhere — and then it is closed}. -/
+theorem pool_exact (cfg : Cfg) (ops : List Op) (c : Conn) (hcreated : (run cfg {} ops).ckey c ≠ none) :
+    let s := run cfg {} ops
+    -- at least one place, unless closed
+    ((∃ k, c ∈ s.idle k) ∨ c ∈ s.transit ∨ (∃ w, (s.wst w).holds c = true) ∨ s.closed c = true) ∧
+    -- idle excludes the others; the list is the one of the connection's key and has it once
+    (∀ k, c ∈ s.idle k → c ∉ s.transit ∧ (∀ w, (s.wst w).holds c = false) ∧
+        s.ckey c = some k ∧ (s.idle k).count c = 1) ∧
+    -- transit excludes ownership and appears once
+    (c ∈ s.transit → (∀ w, (s.wst w).holds c = false) ∧ s.transit.count c = 1) ∧
+    -- one owner at most
+    (∀ w₁ w₂, (s.wst w₁).holds c = true → (s.wst w₂).holds c = true → w₁ = w₂) := by
+  have he := Excl_run cfg {} ops Excl_init
+  refine ⟨?_, ?_, ?_, ?_⟩
+  · cases hcl : (run cfg {} ops).closed c with
+    | true => exact Or.inr (Or.inr (Or.inr rfl))
+    | false =>
+      rcases pool_no_leak cfg ops c hcreated hcl with h | h | h
+      · exact Or.inl h
+      · exact Or.inr (Or.inl h)
+      · exact Or.inr (Or.inr (Or.inl h))
+  · intro k hk
+    exact ⟨he.idleNotTransit k c hk, fun w => he.idleNotHeld k c w hk, he.idleKey k c hk,
+      by rw [(he.idleNodup k).count, if_pos hk]⟩
+  · intro ht
+    exact ⟨fun w => he.transitNotHeld c w ht, by rw [he.transitNodup.count, if_pos ht]⟩
+  · intro w₁ w₂ h1 h2
+    exact he.heldUnique w₁ w₂ c h1 h2
+
 /-- **deliver_once** — a want is delivered at most once: after any further interleaving a want
 that owned connection `c` owns `c` or nothing, and a done want never waits again. -/
 theorem deliver_once (cfg : Cfg) (ops more : List Op) (w : Want) (c d : Conn)
@@ -220,6 +311,17 @@ example : (run exCfg {} (exOps.take 9)).wst 1 = .inUse 7 := by decide
 example : (run exCfg {} (exOps.take 12)).dialWait 0 = [2] := by decide
 example : (run exCfg {} exOps).wst 2 = .gotConn 7 ∧ (run exCfg {} exOps).idle 0 = [] ∧
     (run exCfg {} exOps).cph 0 = 1 := by decide
+
+/-- Non-vacuity: connection 7 of `exOps` walks through the places — delivered, in use, idle,
+in use again, handed to the waiter — and a connection whose want was cancelled while the dial was
+running ends up in transit and, once the routine has let go of it, closed (MaxIdleConnsPerHost < 0:
+keep-alives off). -/
+example : ((run exCfg {} (exOps.take 4)).wst 0).holds 7 = true ∧ (run exCfg {} (exOps.take 6)).idle 0 = [7] ∧
+    ((run exCfg {} (exOps.take 9)).wst 1).holds 7 = true ∧ ((run exCfg {} exOps).wst 2).holds 7 = true := by decide
+example :
+    let s1 := run ⟨0, -1, 0, false⟩ {} [.newWant 0 0, .queueIdle 0, .queueDial 0, .cancel 0, .dialOk 0 5]
+    let s2 := run ⟨0, -1, 0, false⟩ s1 [.putT 5, .closeT 5]
+    s1.transit = [5] ∧ s1.closed 5 = false ∧ s2.transit = [] ∧ s2.closed 5 = true ∧ s2.idle 0 = [] := by decide
 
 end Pool
 
@@ -253,17 +355,66 @@ theorem one_request_at_a_time (ops : List Req.Pool.Pairing.Op) :
     (Req.Pool.Pairing.run {} ops).numExpected ≤ 1 := by
   exact (PInv_run {} ops PInv_init).neLe
 
+/-- **own_response_h1** — whose response a caller gets.  The peer's byte stream is modelled as a
+queue of complete responses, each labelled with the request the peer meant it for (`none` =
+unsolicited bytes: a duplicated response, a response nobody asked for, garbage).  Unless the
+connection is `tainted` (unsolicited bytes arrived in front of an awaited response head, or the
+pool handed the connection out before the read loop saw them — nothing a client can repair),
+every response head delivered to request `r` is the peer's answer to `r`. -/
+theorem own_response_h1 (ops : List Req.Pool.Pairing.Op)
+    (hclean : (Req.Pool.Pairing.run {} ops).tainted = false) (r : Nat) (l : Option Nat)
+    (h : (r, l) ∈ (Req.Pool.Pairing.run {} ops).got) : l = some r :=
+  (Own_run {} ops PInv_init Own_init hclean).1 (r, l) h
+
+/-- **unsolicited_never_delivered** — bytes nobody asked for that the read loop finds on an idle
+connection (`Peek` returns with `numExpectedResponses == 0`) close the connection: whatever
+happens afterwards, no request is ever started on it again and nothing more is delivered. -/
+theorem unsolicited_never_delivered (ops more : List Req.Pool.Pairing.Op)
+    (hidle : (Req.Pool.Pairing.run {} ops).phase = .peeking ∧ (Req.Pool.Pairing.run {} ops).numExpected = 0)
+    (hbytes : (Req.Pool.Pairing.run {} ops).wire ≠ []) :
+    let s := Req.Pool.Pairing.step (Req.Pool.Pairing.run {} ops) .peekIdle
+    s.avail = false ∧ (Req.Pool.Pairing.run s more).got = (Req.Pool.Pairing.run {} ops).got ∧
+      (Req.Pool.Pairing.run s more).started = (Req.Pool.Pairing.run {} ops).started := by
+  have hstep : (Req.Pool.Pairing.step (Req.Pool.Pairing.run {} ops) .peekIdle).phase = .closed ∧
+      (Req.Pool.Pairing.step (Req.Pool.Pairing.run {} ops) .peekIdle).avail = false ∧
+      (Req.Pool.Pairing.step (Req.Pool.Pairing.run {} ops) .peekIdle).got = (Req.Pool.Pairing.run {} ops).got ∧
+      (Req.Pool.Pairing.step (Req.Pool.Pairing.run {} ops) .peekIdle).started = (Req.Pool.Pairing.run {} ops).started := by
+    have hw : (Req.Pool.Pairing.run {} ops).wire.isEmpty = false := by
+      cases hwl : (Req.Pool.Pairing.run {} ops).wire with
+      | nil => exact absurd hwl hbytes
+      | cons _ _ => rfl
+    simp [Req.Pool.Pairing.step, hidle.1, hidle.2, hw]
+  obtain ⟨h1, h2, h3, h4⟩ := hstep
+  obtain ⟨_, c2, c3⟩ := closed_run _ more h1
+  exact ⟨h2, by rw [c2, h3], by rw [c3, h4]⟩
+
+/-- Non-vacuity: a peer that answers request 10 and then repeats its answer while the connection
+is idle.  When the read loop sees the extra bytes first, the connection is closed and request 11
+(ignored here: the pool dials a new connection) gets nothing from it; when the pool wins the
+race the connection is `tainted` and request 11 is given the unsolicited bytes. -/
+example :
+    let s := Req.Pool.Pairing.run {}
+      [.start 10, .peerAnswer, .readHead false true true true, .peerExtra, .peekIdle, .start 11,
+       .readHead false true true true]
+    s.got = [(10, some 10)] ∧ s.tainted = false ∧ s.phase = .closed ∧ s.started = [10] := by decide
+example :
+    let s := Req.Pool.Pairing.run {}
+      [.start 10, .peerAnswer, .readHead false true true true, .peerExtra, .start 11,
+       .readHead false true true true]
+    s.got = [(11, none), (10, some 10)] ∧ s.tainted = true := by decide
+
 /-- Non-vacuity: two requests on one connection; the second is started only after the first
 body was read to EOF and the connection put back; both get their own response. -/
 example :
     let s := Req.Pool.Pairing.run {}
-      [.start 10, .readHead true true true true, .bodyDone true true true,
-       .start 11, .readHead false true true true]
-    s.pairs = [(11, 1), (10, 0)] ∧ s.avail = true ∧ s.consumed = 2 := by decide
+      [.start 10, .peerAnswer, .readHead true true true true, .bodyDone true true true,
+       .start 11, .peerAnswer, .readHead false true true true]
+    s.pairs = [(11, 1), (10, 0)] ∧ s.avail = true ∧ s.consumed = 2 ∧
+      s.got = [(11, some 11), (10, some 10)] := by decide
 /-- and a `start` while the first body is still unread is ignored (the pool never hands the
 connection out then). -/
 example :
-    (Req.Pool.Pairing.run {} [.start 10, .readHead true true true true, .start 11]).started = [10] := by
+    (Req.Pool.Pairing.run {} [.start 10, .peerAnswer, .readHead true true true true, .start 11]).started = [10] := by
   decide
 
 end Pairing
